@@ -1,5 +1,6 @@
 import PytypeModel.Proofs.ArgBindMain
 import PytypeModel.Proofs.ArgBindSelf
+import PytypeModel.Proofs.KwReg
 
 /-! # C13 — calls bind arguments exactly as CPython does
 
@@ -293,5 +294,31 @@ example : cpyBindBound ⟨[], [], none, [], none, []⟩ ⟨0, []⟩ = .error .to
 example : (mapArgs ((⟨[], [0], none, [1], none, []⟩ : Sig).selfPoskw 9) (⟨1, [1]⟩ : Call).withReceiver).map
       (view ((⟨[], [0], none, [1], none, []⟩ : Sig).selfPoskw 9)) =
     .ok [(9, some (.pos 0)), (0, some (.pos 1)), (1, some (.kw 1))] := by decide
+
+/-! ## the call protocol in front of the binder: pending keyword names (`KW_NAMES` / `CALL`, model `Sem/KwReg.lean`)
+
+`_map_args` above receives positional and named arguments; which stack operands are which is decided by
+`call_function_from_stack_311` from the VM's pending-names register. -/
+section kwreg
+open PytypeModel.KwReg
+
+/-- For every dynamic trace of `KW_NAMES` / `CALL` events in which each `KW_NAMES` is immediately followed by its
+`CALL` (compiler output; the callee's own events come *after* the call's, because pytype interprets the body inline):
+every call splits its operands with exactly the names of the `KW_NAMES` that immediately precedes it, and a call
+without one — in particular every call executed while another is in progress — is purely positional. -/
+theorem kw_register_spec (t : List Ev) (h : wellPaired t = true) : run [] t = spec t := run_nil_eq_spec t h
+
+/-- whatever was pending is overwritten by the next `KW_NAMES` and consumed by its call: a stale register never
+reaches a later call -/
+theorem kw_register_overwritten (stale ns : List String) (n : Nat) (r : List Ev) :
+    run stale (.kw ns :: .call n :: r) = split ns n :: run [] r := rfl
+
+/-- a keyword call `f(1, q=2)` whose callee's body calls `str(p)` and `len(x)`: the inner calls are positional -/
+example : run [] [.kw ["q"], .call 2, .call 1, .call 1] = [⟨1, ["q"]⟩, ⟨1, []⟩, ⟨1, []⟩] := by decide
+example : wellPaired [.kw ["q"], .call 2, .call 1, .kw ["a", "b"], .call 3] = true := by decide
+example : spec [.kw ["q"], .call 2, .call 1, .kw ["a", "b"], .call 3] = [⟨1, ["q"]⟩, ⟨1, []⟩, ⟨1, ["a", "b"]⟩] := by
+  decide
+
+end kwreg
 
 end PytypeModel.Props.C13
